@@ -1502,7 +1502,8 @@ class SecurityBase(Node):
         # buy/sell
         # determine quantity - must also factor in commission
         # closing out?
-        if is_zero(amount + self._value):
+        closing_out = is_zero(amount + self._value)
+        if closing_out:
             q = -self._position
         else:
             q = amount / (self._price * self.multiplier)
@@ -1531,7 +1532,7 @@ class SecurityBase(Node):
         # sell additional units to fund this requirement. As such, q must once
         # again decrease.
         #
-        if not q == -self._position:
+        if not closing_out:
             full_outlay, _, _, _ = self.outlay(q)
 
             # if full outlay > amount, we must decrease the magnitude of `q`
